@@ -15,8 +15,29 @@ def gen_xml(c):
     rng = np.random.default_rng(c["mseed"])
     kind = c["kind"]
     if kind == "pile":
-        return piles.pile_xml(rng, nclusters=int(rng.integers(1, 4)), per=int(rng.integers(2, 6)), condim=c.get("condim", "mix"),
-                              spacing=float(rng.choice([0.3, 3.0])), multi_geom=0.4)
+        xml = piles.pile_xml(rng, nclusters=int(rng.integers(1, 4)), per=int(rng.integers(2, 6)), condim=c.get("condim", "mix"),
+                             spacing=float(rng.choice([0.3, 3.0])), multi_geom=0.4)
+        # explicit contact pairs between geoms that certainly touch (floor vs pile geoms, neighbours in a cluster): the only way to
+        # get a contact whose two tangential friction coefficients differ (geom-derived contacts always have friction[0] == friction[1])
+        import re
+        names = re.findall(r'<geom name="(g\d+)"', xml)
+        if names and rng.random() < 0.6:
+            prs = []
+            for g in names:
+                if rng.random() < 0.5:
+                    prs.append(("floor", g))
+            for a, b in zip(names, names[1:]):
+                if rng.random() < 0.4:
+                    prs.append((a, b))
+            el = []
+            for a, b in prs:
+                fr = [float(logu(rng, 0.05, 2.0)), float(logu(rng, 0.05, 2.0)), float(logu(rng, 1e-3, 0.1)), float(logu(rng, 1e-4, 0.02)), float(logu(rng, 1e-4, 0.02))]
+                if rng.random() < 0.25:
+                    fr[1] = fr[0]                      # isotropic control
+                el.append('<pair geom1="%s" geom2="%s" condim="%d" friction="%s"/>' % (a, b, int(rng.choice([3, 3, 4, 6])), " ".join(repr(x) for x in fr)))
+            if el:
+                xml = xml.replace("</mujoco>", "<contact>" + "".join(el) + "</contact></mujoco>")
+        return xml
     over = dict(sensors=0, frictionloss=0.6, limits=0.7, equalities=3, tendons=2, condim=0.8, geom_friction=0.5, mocap=0.0,
                 nbody=(3, 10))
     over.update(c.get("over", {}))
